@@ -25,9 +25,9 @@ def result_defined_sin_sq (theta a : ℝ) : Prop :=
   ((4 : ℝ) * theta) ≠ 0
 /-- value returned by `_analytical_integration("sin(theta/a)**2", theta, a)` (line 88) -/
 def analytic_sin_sq (theta a : ℝ) : ℝ :=
-  (if theta = (0 : ℝ) then (0 : ℝ) else ((a * (((2 : ℝ) * theta) - (Real.sin ((2 : ℝ) * theta)))) / ((4 : ℝ) * theta)))
+  (if theta = (0 : ℝ) then (a * ((Real.sin ((0 : ℝ) / a)) ^ 2)) else ((a * (((2 : ℝ) * theta) - (Real.sin ((2 : ℝ) * theta)))) / ((4 : ℝ) * theta)))
 def analytic_defined_sin_sq (theta a : ℝ) : Prop :=
-  (if theta = (0 : ℝ) then True else ((4 : ℝ) * theta) ≠ 0)
+  (if theta = (0 : ℝ) then a ≠ 0 else ((4 : ℝ) * theta) ≠ 0)
 /-- the function `_numerical_integration("sin(theta/a)**2", theta, a)` (line 105) hands to `scipy.integrate.quad`, at `t` -/
 def numeric_integrand_sin_sq (F : ℝ → ℝ) (theta a t : ℝ) : ℝ :=
   ((Real.sin ((((F (t / a)) * theta) * a) / a)) ^ 2)
@@ -53,9 +53,9 @@ def result_defined_sin_half_pow4 (theta a : ℝ) : Prop :=
   ((16 : ℝ) * theta) ≠ 0
 /-- value returned by `_analytical_integration("sin(theta/(2*a))**4", theta, a)` (line 88) -/
 def analytic_sin_half_pow4 (theta a : ℝ) : ℝ :=
-  (if theta = (0 : ℝ) then (0 : ℝ) else ((a * ((((6 : ℝ) * theta) - ((8 : ℝ) * (Real.sin theta))) + (Real.sin ((2 : ℝ) * theta)))) / ((16 : ℝ) * theta)))
+  (if theta = (0 : ℝ) then (a * ((Real.sin ((0 : ℝ) / ((2 : ℝ) * a))) ^ 4)) else ((a * ((((6 : ℝ) * theta) - ((8 : ℝ) * (Real.sin theta))) + (Real.sin ((2 : ℝ) * theta)))) / ((16 : ℝ) * theta)))
 def analytic_defined_sin_half_pow4 (theta a : ℝ) : Prop :=
-  (if theta = (0 : ℝ) then True else ((16 : ℝ) * theta) ≠ 0)
+  (if theta = (0 : ℝ) then ((2 : ℝ) * a) ≠ 0 else ((16 : ℝ) * theta) ≠ 0)
 /-- the function `_numerical_integration("sin(theta/(2*a))**4", theta, a)` (line 105) hands to `scipy.integrate.quad`, at `t` -/
 def numeric_integrand_sin_half_pow4 (F : ℝ → ℝ) (theta a t : ℝ) : ℝ :=
   ((Real.sin ((((F (t / a)) * theta) * a) / ((2 : ℝ) * a))) ^ 4)
@@ -81,9 +81,9 @@ def result_defined_sin_mul_sin_half_sq (theta a : ℝ) : Prop :=
   (2 : ℝ) ≠ 0 ∧ theta ≠ 0
 /-- value returned by `_analytical_integration("sin(theta/a)*sin(theta/(2*a))**2", theta, a)` (line 88) -/
 def analytic_sin_mul_sin_half_sq (theta a : ℝ) : ℝ :=
-  (if theta = (0 : ℝ) then (0 : ℝ) else ((a * ((Real.sin (theta / (2 : ℝ))) ^ 4)) / theta))
+  (if theta = (0 : ℝ) then (a * ((Real.sin ((0 : ℝ) / a)) * ((Real.sin ((0 : ℝ) / ((2 : ℝ) * a))) ^ 2))) else ((a * ((Real.sin (theta / (2 : ℝ))) ^ 4)) / theta))
 def analytic_defined_sin_mul_sin_half_sq (theta a : ℝ) : Prop :=
-  (if theta = (0 : ℝ) then True else (2 : ℝ) ≠ 0 ∧ theta ≠ 0)
+  (if theta = (0 : ℝ) then a ≠ 0 ∧ ((2 : ℝ) * a) ≠ 0 else (2 : ℝ) ≠ 0 ∧ theta ≠ 0)
 /-- the function `_numerical_integration("sin(theta/a)*sin(theta/(2*a))**2", theta, a)` (line 105) hands to `scipy.integrate.quad`, at `t` -/
 def numeric_integrand_sin_mul_sin_half_sq (F : ℝ → ℝ) (theta a t : ℝ) : ℝ :=
   ((Real.sin ((((F (t / a)) * theta) * a) / a)) * ((Real.sin ((((F (t / a)) * theta) * a) / ((2 : ℝ) * a))) ^ 2))
@@ -109,9 +109,9 @@ def result_defined_sin_half_sq (theta a : ℝ) : Prop :=
   ((2 : ℝ) * theta) ≠ 0
 /-- value returned by `_analytical_integration("sin(theta/(2*a))**2", theta, a)` (line 88) -/
 def analytic_sin_half_sq (theta a : ℝ) : ℝ :=
-  (if theta = (0 : ℝ) then (0 : ℝ) else ((a * (theta - (Real.sin theta))) / ((2 : ℝ) * theta)))
+  (if theta = (0 : ℝ) then (a * ((Real.sin ((0 : ℝ) / ((2 : ℝ) * a))) ^ 2)) else ((a * (theta - (Real.sin theta))) / ((2 : ℝ) * theta)))
 def analytic_defined_sin_half_sq (theta a : ℝ) : Prop :=
-  (if theta = (0 : ℝ) then True else ((2 : ℝ) * theta) ≠ 0)
+  (if theta = (0 : ℝ) then ((2 : ℝ) * a) ≠ 0 else ((2 : ℝ) * theta) ≠ 0)
 /-- the function `_numerical_integration("sin(theta/(2*a))**2", theta, a)` (line 105) hands to `scipy.integrate.quad`, at `t` -/
 def numeric_integrand_sin_half_sq (F : ℝ → ℝ) (theta a t : ℝ) : ℝ :=
   ((Real.sin ((((F (t / a)) * theta) * a) / ((2 : ℝ) * a))) ^ 2)
@@ -137,9 +137,9 @@ def result_defined_cos_sq (theta a : ℝ) : Prop :=
   ((4 : ℝ) * theta) ≠ 0
 /-- value returned by `_analytical_integration("cos(theta/a)**2", theta, a)` (line 88) -/
 def analytic_cos_sq (theta a : ℝ) : ℝ :=
-  (if theta = (0 : ℝ) then (0 : ℝ) else ((a * (((2 : ℝ) * theta) + (Real.sin ((2 : ℝ) * theta)))) / ((4 : ℝ) * theta)))
+  (if theta = (0 : ℝ) then (a * ((Real.cos ((0 : ℝ) / a)) ^ 2)) else ((a * (((2 : ℝ) * theta) + (Real.sin ((2 : ℝ) * theta)))) / ((4 : ℝ) * theta)))
 def analytic_defined_cos_sq (theta a : ℝ) : Prop :=
-  (if theta = (0 : ℝ) then True else ((4 : ℝ) * theta) ≠ 0)
+  (if theta = (0 : ℝ) then a ≠ 0 else ((4 : ℝ) * theta) ≠ 0)
 /-- the function `_numerical_integration("cos(theta/a)**2", theta, a)` (line 105) hands to `scipy.integrate.quad`, at `t` -/
 def numeric_integrand_cos_sq (F : ℝ → ℝ) (theta a t : ℝ) : ℝ :=
   ((Real.cos ((((F (t / a)) * theta) * a) / a)) ^ 2)
@@ -165,9 +165,9 @@ def result_defined_sin_mul_cos (theta a : ℝ) : Prop :=
   ((2 : ℝ) * theta) ≠ 0
 /-- value returned by `_analytical_integration("sin(theta/a)*cos(theta/a)", theta, a)` (line 88) -/
 def analytic_sin_mul_cos (theta a : ℝ) : ℝ :=
-  (if theta = (0 : ℝ) then (0 : ℝ) else ((a * ((Real.sin theta) ^ 2)) / ((2 : ℝ) * theta)))
+  (if theta = (0 : ℝ) then (a * ((Real.sin ((0 : ℝ) / a)) * (Real.cos ((0 : ℝ) / a)))) else ((a * ((Real.sin theta) ^ 2)) / ((2 : ℝ) * theta)))
 def analytic_defined_sin_mul_cos (theta a : ℝ) : Prop :=
-  (if theta = (0 : ℝ) then True else ((2 : ℝ) * theta) ≠ 0)
+  (if theta = (0 : ℝ) then a ≠ 0 ∧ a ≠ 0 else ((2 : ℝ) * theta) ≠ 0)
 /-- the function `_numerical_integration("sin(theta/a)*cos(theta/a)", theta, a)` (line 105) hands to `scipy.integrate.quad`, at `t` -/
 def numeric_integrand_sin_mul_cos (F : ℝ → ℝ) (theta a t : ℝ) : ℝ :=
   ((Real.sin ((((F (t / a)) * theta) * a) / a)) * (Real.cos ((((F (t / a)) * theta) * a) / a)))
@@ -193,9 +193,9 @@ def result_defined_sin (theta a : ℝ) : Prop :=
   theta ≠ 0
 /-- value returned by `_analytical_integration("sin(theta/a)", theta, a)` (line 88) -/
 def analytic_sin (theta a : ℝ) : ℝ :=
-  (if theta = (0 : ℝ) then (0 : ℝ) else ((a * ((1 : ℝ) - (Real.cos theta))) / theta))
+  (if theta = (0 : ℝ) then (a * (Real.sin ((0 : ℝ) / a))) else ((a * ((1 : ℝ) - (Real.cos theta))) / theta))
 def analytic_defined_sin (theta a : ℝ) : Prop :=
-  (if theta = (0 : ℝ) then True else theta ≠ 0)
+  (if theta = (0 : ℝ) then a ≠ 0 else theta ≠ 0)
 /-- the function `_numerical_integration("sin(theta/a)", theta, a)` (line 105) hands to `scipy.integrate.quad`, at `t` -/
 def numeric_integrand_sin (F : ℝ → ℝ) (theta a t : ℝ) : ℝ :=
   (Real.sin ((((F (t / a)) * theta) * a) / a))
@@ -221,9 +221,9 @@ def result_defined_cos_half_sq (theta a : ℝ) : Prop :=
   ((2 : ℝ) * theta) ≠ 0
 /-- value returned by `_analytical_integration("cos(theta/(2*a))**2", theta, a)` (line 88) -/
 def analytic_cos_half_sq (theta a : ℝ) : ℝ :=
-  (if theta = (0 : ℝ) then (0 : ℝ) else ((a * (theta + (Real.sin theta))) / ((2 : ℝ) * theta)))
+  (if theta = (0 : ℝ) then (a * ((Real.cos ((0 : ℝ) / ((2 : ℝ) * a))) ^ 2)) else ((a * (theta + (Real.sin theta))) / ((2 : ℝ) * theta)))
 def analytic_defined_cos_half_sq (theta a : ℝ) : Prop :=
-  (if theta = (0 : ℝ) then True else ((2 : ℝ) * theta) ≠ 0)
+  (if theta = (0 : ℝ) then ((2 : ℝ) * a) ≠ 0 else ((2 : ℝ) * theta) ≠ 0)
 /-- the function `_numerical_integration("cos(theta/(2*a))**2", theta, a)` (line 105) hands to `scipy.integrate.quad`, at `t` -/
 def numeric_integrand_cos_half_sq (F : ℝ → ℝ) (theta a t : ℝ) : ℝ :=
   ((Real.cos ((((F (t / a)) * theta) * a) / ((2 : ℝ) * a))) ^ 2)
